@@ -29,12 +29,17 @@ type Program struct {
 	Parser *packages.Package
 	Main   *packages.Package
 
-	parents map[ast.Node]ast.Node
-	funcOf  map[*ast.FuncDecl]*packages.Package
-	ssa     *ssaProgram
-	sums    *Summaries
-	gram    *grammar
-	strips  map[*types.Func]bool
+	Info           *types.Info // merged type information of the three packages
+	parents        map[ast.Node]ast.Node
+	origInfo       map[*packages.Package]*types.Info
+	defs           map[types.Object]*defInfo
+	globalsWritten map[*types.Var]bool
+	fieldIdxStored map[*types.Var]bool
+	funcOf         map[*ast.FuncDecl]*packages.Package
+	ssa            *ssaProgram
+	sums           *Summaries
+	gram           *grammar
+	strips         map[*types.Func]bool
 }
 
 // CheckerError is a failure of the checker itself (exit 2), not a verdict.
@@ -89,6 +94,46 @@ func Load(dir string) *Program {
 		fatalf("expected packages %s, %s, %s; loaded %d packages", PathPQL, PathParser, PathMain, len(pkgs))
 	}
 	sort.Slice(p.All, func(i, j int) bool { return p.All[i].PkgPath < p.All[j].PkgPath })
+	// One type-information view for the whole module: syntax nodes are unique across packages, so the maps can be
+	// merged. This lets the engine interpret a callee of another package in place (helper inlining).
+	merged := &types.Info{
+		Types: map[ast.Expr]types.TypeAndValue{}, Defs: map[*ast.Ident]types.Object{}, Uses: map[*ast.Ident]types.Object{},
+		Implicits: map[ast.Node]types.Object{}, Selections: map[*ast.SelectorExpr]*types.Selection{},
+		Scopes: map[ast.Node]*types.Scope{}, Instances: map[*ast.Ident]types.Instance{}, FileVersions: map[*ast.File]string{},
+	}
+	for _, pkg := range p.All {
+		ti := pkg.TypesInfo
+		for k, v := range ti.Types {
+			merged.Types[k] = v
+		}
+		for k, v := range ti.Defs {
+			merged.Defs[k] = v
+		}
+		for k, v := range ti.Uses {
+			merged.Uses[k] = v
+		}
+		for k, v := range ti.Implicits {
+			merged.Implicits[k] = v
+		}
+		for k, v := range ti.Selections {
+			merged.Selections[k] = v
+		}
+		for k, v := range ti.Scopes {
+			merged.Scopes[k] = v
+		}
+		for k, v := range ti.Instances {
+			merged.Instances[k] = v
+		}
+		for k, v := range ti.FileVersions {
+			merged.FileVersions[k] = v
+		}
+	}
+	p.origInfo = map[*packages.Package]*types.Info{}
+	for _, pkg := range p.All {
+		p.origInfo[pkg] = pkg.TypesInfo
+		pkg.TypesInfo = merged
+	}
+	p.Info = merged
 	p.parents = map[ast.Node]ast.Node{}
 	p.funcOf = map[*ast.FuncDecl]*packages.Package{}
 	for _, pkg := range p.All {
@@ -111,6 +156,23 @@ func Load(dir string) *Program {
 		}
 	}
 	return p
+}
+
+// DeclOf returns the declaration (with body) and package of a module function, or nil.
+func (p *Program) DeclOf(fn *types.Func) (*ast.FuncDecl, *packages.Package) {
+	if fn == nil {
+		return nil, nil
+	}
+	s := p.Summaries()
+	fd := s.decls[fn]
+	if fd == nil {
+		fd = s.decls[fn.Origin()]
+		fn = fn.Origin()
+	}
+	if fd == nil {
+		return nil, nil
+	}
+	return fd, s.declPkg[fn]
 }
 
 // Lib returns the two library packages (pql, parser).
@@ -336,6 +398,23 @@ func (p *Program) EnclosingFunc(n ast.Node) *ast.FuncDecl {
 			return fd
 		}
 		n = p.parents[n]
+	}
+	return nil
+}
+
+// FuncAt returns the function declaration whose extent contains pos.
+func (p *Program) FuncAt(pos token.Pos) *ast.FuncDecl {
+	for _, pkg := range p.All {
+		for _, f := range pkg.Syntax {
+			if f.Pos() > pos || pos > f.End() {
+				continue
+			}
+			for _, d := range f.Decls {
+				if fd, ok := d.(*ast.FuncDecl); ok && fd.Pos() <= pos && pos <= fd.End() {
+					return fd
+				}
+			}
+		}
 	}
 	return nil
 }
